@@ -668,6 +668,60 @@ class Lexicon:
                     found[reason] = w
         return found
 
+    def unstable_ends(self, followers: set):
+        """Token-end stability: if on `w` (then end of input) the master selects rule A with the whole of w,
+        then on `w·t·z` (t one of `followers`, z anything) it must select A with exactly |w| again.
+        Returns {(A, final rule, how): witness}."""
+        M, atoms = self.M, self.atoms
+        found = {}
+
+        # phase 1 nodes: (st, last, n);  phase 2 nodes: ('p2', st, expect, status) where status tracks whether a match
+        # ending exactly at the split position / beyond it has been recorded
+        def succ(node):
+            if node[0] == "end":
+                return
+            if node[0] == "p2":
+                _, st, expect, at_split, final = node
+                if M.dead(st):
+                    yield None, ("end", expect, at_split, final)
+                    return
+                for a in atoms:
+                    st2, ev = M.step(st, a)
+                    yield a, ("p2", st2, expect, at_split, ("beyond", ev) if ev is not None else final)
+                st2, ev = M.step(st, EOF)
+                yield EOF, ("end", expect, at_split, ("beyond", ev) if ev is not None else final)
+                return
+            st, last, n = node
+            if M.dead(st):
+                return
+            # would the master, at end of input here, select a rule with the whole text?
+            _, ev_eof = M.step(st, EOF)
+            if n and ev_eof is not None:
+                for t in followers:
+                    st2, ev = M.step(st, t)
+                    at_split = ev          # match recorded exactly at the split position (before t)
+                    yield t, ("p2", st2, ev_eof, at_split, None)
+            for a in atoms:
+                st2, ev = M.step(st, a)
+                yield a, (st2, ev if ev is not None else last, 1)
+        parent = _bfs([(s, None, 0) for s in M.starts()], succ)
+        for node in parent:
+            if node[0] != "end":
+                continue
+            _, expect, at_split, final = node
+            got = final[1] if final is not None else at_split
+            how = None
+            if final is not None:
+                how = "extends past the token's end"
+            elif at_split != expect:
+                how = "is a different token"
+            if how:
+                key = (expect, got, how)
+                w = _text(_path(parent, node))
+                if key not in found or len(w) < len(found[key]):
+                    found[key] = w
+        return found
+
     def first_atoms(self, i: int) -> set[int]:
         R = self.R[i]
         out = set()
